@@ -125,3 +125,7 @@ func VNow() time.Time {
 	}
 	return vepoch.Add(S.now)
 }
+
+// Since / Until replace time.Since / time.Until (which read the real clock).
+func Since(t time.Time) time.Duration { return VNow().Sub(t) }
+func Until(t time.Time) time.Duration { return t.Sub(VNow()) }
